@@ -484,11 +484,15 @@ theorem c04_compare_matches_c13_model (a b c d e f g h : Nat)
   have hc2 : validFormat cutoff = true := valid_cutoff
   constructor
   · by_cases hxy : fmt a b c d e f g h = cutoff
-    · simp [compareGen, pvCompare, hxy, Except.toOption]
-    · simp [compareGen, pvCompare, hxy, hv, hv2, hc1, hc2, Except.toOption]
+    · rw [(c04_compare_spec _ _).1.mpr hxy]
+      simp [pvCompare, hxy, Except.toOption]
+    · rw [(c04_compare_spec _ _).2.2 hxy hv hc1]
+      simp [pvCompare, hxy, hv2, hc2, Except.toOption]
   · by_cases hxy : cutoff = fmt a b c d e f g h
-    · simp [compareGen, pvCompare, hxy, Except.toOption]
-    · simp [compareGen, pvCompare, hxy, hv, hv2, hc1, hc2, Except.toOption]
+    · rw [(c04_compare_spec _ _).1.mpr hxy]
+      simp [pvCompare, hxy, Except.toOption]
+    · rw [(c04_compare_spec _ _).2.2 hxy hc1 hv]
+      simp [pvCompare, hxy, hv2, hc2, Except.toOption]
 
 /-- `parse_version` raises exactly on what `validate_format` rejects (Unicode digits of any script,
 one trailing newline included in "accepts"). -/
